@@ -32,6 +32,9 @@ type skelEval struct {
 	onBlock func(*ssa.BasicBlock)
 	// onInstr is told every instruction executed at depth 0, with the evaluator of the moment
 	onInstr func(in ssa.Instruction, get func(ssa.Value) *big.Int)
+	// deep: also follow module callees that return no integer (for what they call) and tell onInstr
+	// about the instructions executed inside callees
+	deep bool
 }
 
 // globalIntArray: the elements of a package-level integer array / slice variable
@@ -169,6 +172,10 @@ func (e *skelEval) run(fn *ssa.Function, args []*big.Int) (*big.Int, error) {
 		return env[v]
 	}
 	cellVal := map[ssa.Value]*big.Int{} // addresses of elements of constant lookup tables
+	arrVal := map[*ssa.Alloc]map[int64]*big.Int{}
+	arrFld := map[*ssa.Alloc]map[int64]map[int]*big.Int{}
+	structVal := map[ssa.Value]map[int]*big.Int{}
+	structCell := map[*ssa.Alloc]map[int]*big.Int{}
 	b := fn.Blocks[0]
 	var prev *ssa.BasicBlock
 	for steps := 0; steps < 2000; steps++ {
@@ -179,11 +186,18 @@ func (e *skelEval) run(fn *ssa.Function, args []*big.Int) (*big.Int, error) {
 			if v, ok := in.(ssa.Value); ok && preset[v] {
 				continue
 			}
-			if e.depth == 0 && e.onInstr != nil {
+			if (e.depth == 0 || e.deep) && e.onInstr != nil {
 				e.onInstr(in, get)
 			}
 			switch x := in.(type) {
 			case *ssa.IndexAddr:
+				if al, ok := x.X.(*ssa.Alloc); ok {
+					if k := get(x.Index); k != nil && k.IsInt64() {
+						if v, ok := arrVal[al][k.Int64()]; ok {
+							cellVal[x] = v
+						}
+					}
+				}
 				if g, ok := x.X.(*ssa.Global); ok {
 					if tbl := e.c.globalIntArray(g); tbl != nil {
 						idx := get(x.Index)
@@ -214,10 +228,119 @@ func (e *skelEval) run(fn *ssa.Function, args []*big.Int) (*big.Int, error) {
 				if v := get(x.X); v != nil {
 					env[x] = v
 				}
+			case *ssa.Store:
+				// a local variable kept in memory (captured by a closure, or its address taken)
+				if al, ok := x.Addr.(*ssa.Alloc); ok && isIntegerType(deref(al.Type()), e.sizes) {
+					if v := get(x.Val); v != nil {
+						cellVal[al] = v
+					} else {
+						delete(cellVal, al)
+					}
+				}
+				// struct values kept in local cells and copied around (composite literals of structs)
+				if fa, ok := x.Addr.(*ssa.FieldAddr); ok {
+					if al, ok := fa.X.(*ssa.Alloc); ok {
+						if structCell[al] == nil {
+							structCell[al] = map[int]*big.Int{}
+						}
+						if v := get(x.Val); v != nil {
+							structCell[al][fa.Field] = v
+						} else {
+							delete(structCell[al], fa.Field)
+						}
+					}
+				}
+				if fs, ok := structVal[x.Val]; ok {
+					switch a := x.Addr.(type) {
+					case *ssa.Alloc:
+						structCell[a] = fs
+					case *ssa.IndexAddr:
+						if al, ok := a.X.(*ssa.Alloc); ok {
+							if k := get(a.Index); k != nil && k.IsInt64() {
+								if arrFld[al] == nil {
+									arrFld[al] = map[int64]map[int]*big.Int{}
+								}
+								arrFld[al][k.Int64()] = fs
+							}
+						}
+					}
+				}
+				// a field of an element of a local array of structs: rows := [...]struct{a, b int}{{..}, {..}}
+				if fa, ok := x.Addr.(*ssa.FieldAddr); ok {
+					if ia, ok := fa.X.(*ssa.IndexAddr); ok {
+						if al, ok := ia.X.(*ssa.Alloc); ok {
+							if k := get(ia.Index); k != nil && k.IsInt64() {
+								if arrFld[al] == nil {
+									arrFld[al] = map[int64]map[int]*big.Int{}
+								}
+								if arrFld[al][k.Int64()] == nil {
+									arrFld[al][k.Int64()] = map[int]*big.Int{}
+								}
+								if v := get(x.Val); v != nil {
+									arrFld[al][k.Int64()][fa.Field] = v
+								} else {
+									delete(arrFld[al][k.Int64()], fa.Field)
+								}
+							}
+						}
+					}
+				}
+				// an element of a local array literal: limits := [...]T{a, b, c}
+				if ia, ok := x.Addr.(*ssa.IndexAddr); ok {
+					if al, ok := ia.X.(*ssa.Alloc); ok {
+						if k := get(ia.Index); k != nil && k.IsInt64() {
+							if arrVal[al] == nil {
+								arrVal[al] = map[int64]*big.Int{}
+							}
+							if v := get(x.Val); v != nil {
+								arrVal[al][k.Int64()] = v
+							} else {
+								delete(arrVal[al], k.Int64())
+							}
+						}
+					}
+				}
+			case *ssa.Index:
+				// t = *arr; t[i] (range over an array value)
+				if ld, ok := x.X.(*ssa.UnOp); ok && ld.Op == token.MUL {
+					if al, ok := ld.X.(*ssa.Alloc); ok {
+						if k := get(x.Index); k != nil && k.IsInt64() {
+							if v, ok := arrVal[al][k.Int64()]; ok {
+								env[x] = v
+							}
+							if fs, ok := arrFld[al][k.Int64()]; ok {
+								structVal[x] = fs
+							}
+						}
+					}
+				}
+			case *ssa.Field:
+				if fs, ok := structVal[x.X]; ok {
+					if v, ok := fs[x.Field]; ok {
+						env[x] = v
+					}
+				}
 			case *ssa.UnOp:
 				if x.Op == token.MUL {
 					if v, ok := cellVal[x.X]; ok {
 						env[x] = v
+					}
+					// a whole struct loaded from a local cell, or one of its fields
+					if al, ok := x.X.(*ssa.Alloc); ok {
+						if fs, ok := structCell[al]; ok {
+							cp := map[int]*big.Int{}
+							for k, v := range fs {
+								cp[k] = v
+							}
+							structVal[x] = cp
+						}
+					}
+					if fa, ok := x.X.(*ssa.FieldAddr); ok {
+						if al, ok := fa.X.(*ssa.Alloc); ok {
+							if v, ok := structCell[al][fa.Field]; ok {
+								env[x] = v
+							}
+						}
 					}
 					continue
 				}
@@ -329,6 +452,15 @@ func (e *skelEval) run(fn *ssa.Function, args []*big.Int) (*big.Int, error) {
 							env[x] = r
 						}
 						e.depth--
+					} else if e.deep && e.depth < 3 {
+						// follow helpers for their effects (the observer sees the calls they make);
+						// their error results are taken to be nil
+						e.depth++
+						_, _ = e.run(sc, as)
+						e.depth--
+						if isErrorType(x.Type()) {
+							env[x] = bi(0)
+						}
 					}
 				}
 			case *ssa.If:
